@@ -111,7 +111,7 @@ def build(quick=True):
     T["dispatch.two"] = "@external\ndef f(x: uint256) -> uint256:\n    return x + 1\n\n@external\n@payable\ndef g() -> uint256:\n    return msg.value\n"
     T["dispatch.default"] = "@external\ndef f(x: uint256) -> uint256:\n    return x\n\n@external\n@payable\ndef __default__():\n    log E(msg.value)\n\nevent E:\n    v: uint256\n".replace("@external\n@payable\ndef __default__", "@external\n@payable\ndef __default__")
     T["dispatch.kwargs"] = "@external\ndef f(x: uint256, y: uint256 = 7, z: bool = True) -> uint256:\n    return x + y if z else 0\n"
-    T["dispatch.six"] = "".join(f"@external\ndef fn{i}(x: uint256) -> uint256:\n    return x + {i}\n\n" for i in range(6))
+    T["dispatch.six"] = "".join(f"@external\ndef fn{i}(x: uint256) -> uint256:\n    return x ^ {i}\n\n" for i in range(6))
     T["dispatch.payable.mix"] = "".join(f"@external\n{'@payable' if i % 2 else ''}\ndef fn{i}() -> uint256:\n    return {i}\n\n".replace("\n\ndef", "\ndef") for i in range(5))
     # ---- events, environment
     T["event.static"] = "event E:\n    a: indexed(uint256)\n    b: int128\n    c: bool\n\n" + _fn("x: uint256, y: int128", "", "log E(a=x, b=y, c=x > 3)")
